@@ -478,7 +478,10 @@ def run (fixed : Bool) (C : Cfg ν) (I : Input ν) (fs : FS ν) : FS ν × Bool 
       then (fs, false)
       else
         let imm : LPath ν := [.nm C.db, .nm C.immutable]
-        let upper := if I.includeAncillary then I.last + 1 else I.last
+        -- after the `fix:` commit 3360edee4 the expected trios are those of the REQUESTED range (+1 with the ancillary
+        -- files, whose range has to end at the beacon); before it: every trio of 0..=beacon (+1)
+        let upper := if fixed then (if I.includeAncillary then hi + 1 else hi) else (if I.includeAncillary then I.last + 1 else I.last)
+        let lower := if fixed then lo else 0
         let pre : Option (List ν) :=
           if pexists fs imm then
             match stat fs imm with
@@ -488,7 +491,7 @@ def run (fixed : Bool) (C : Cfg ν) (I : Input ν) (fs : FS ν) : FS ν × Bool 
         match pre with
         | none => (fs, false)
         | some names =>
-          let expected := names ++ (numbersIn 0 upper).flatMap C.trio
+          let expected := names ++ (numbersIn lower upper).flatMap C.trio
           if I.includeAncillary && !I.verifierSet then (fs, false)
           else
             let (fs1, ok1) := immutableTasks C I fs (numbersIn lo hi)
